@@ -38,7 +38,7 @@ package server
 //@   && u128(id.High, id.Low) == u128(e.clientLatest.High, e.clientLatest.Low)
 //@   && u128(id.High, id.Low) == u128(e.ID.High, e.ID.Low)
 
-//@ pred failedFor(r *spb.ModifyResponse, id uint64) = r != nil && len(r.Result) == 1 && r.Result[0] != nil
+//@ pred failedFor(r *spb.ModifyResponse, id uint64) = r != nil && len(r.Result) == 1 && allocated(r.Result[0])
 //@   && r.Result[0].Id == id && r.Result[0].Status == spb.AFTResult_FAILED
 //@   && r.ElectionId == nil && r.SessionParamsResult == nil
 
@@ -210,3 +210,50 @@ package server
 //@ ensures[wf] csWF(s)
 //@ assigns s.cs[id].params
 //@ props C09 C12:safety
+
+//@ pred fibOnlyAfterRib(rs []*spb.AFTResult) = forall i in 0..len(rs) :: allocated(rs[i])
+//@   && (rs[i].Status == spb.AFTResult_FIB_PROGRAMMED ==> i > 0 && rs[i-1].Status == spb.AFTResult_RIB_PROGRAMMED && rs[i-1].Id == rs[i].Id)
+//@ pred ribThenFib(rs []*spb.AFTResult, fib bool) = forall i in 0..len(rs) :: rs[i].Status == spb.AFTResult_RIB_PROGRAMMED
+//@   ==> (fib <==> (i + 1 < len(rs) && rs[i+1].Status == spb.AFTResult_FIB_PROGRAMMED && rs[i+1].Id == rs[i].Id))
+//@ pred statusesKnown(rs []*spb.AFTResult) = forall i in 0..len(rs) :: rs[i].Status == spb.AFTResult_RIB_PROGRAMMED
+//@   || rs[i].Status == spb.AFTResult_FIB_PROGRAMMED || rs[i].Status == spb.AFTResult_FAILED
+
+//@ unit modifyEntry
+//@ requires r != nil ==> holdersNonNil(r)
+//@ ensures[nil-op] op == nil ==> result1 != nil && result0 == nil
+//@ ensures[one-of] (result0 == nil) != (result1 == nil)
+//@ ensures[unauthorised-no-rib] op != nil && !authorised(op.ElectionId, election) ==> ribState == old(ribState)
+//@ ensures[unauthorised-answer] op != nil && !authorised(op.ElectionId, election) ==> result1 != nil || failedFor(result0, op.Id)
+//@ ensures[bad-op-type] op != nil && op.Op != spb.AFTOperation_ADD && op.Op != spb.AFTOperation_REPLACE && op.Op != spb.AFTOperation_DELETE
+//@   ==> ribState == old(ribState) && (result1 != nil || failedFor(result0, op.Id))
+//@ ensures[rib-before-fib] result0 != nil ==> fibOnlyAfterRib(result0.Result)
+//@ ensures[fib-follows-rib] result0 != nil ==> ribThenFib(result0.Result, fibACK)
+//@ ensures[statuses] result0 != nil ==> statusesKnown(result0.Result)
+//@ ensures[shape] result0 != nil ==> result0.ElectionId == nil && result0.SessionParamsResult == nil
+//@ loop 1 at "range oks" invariant fibOnlyAfterRib(results) && ribThenFib(results, fibACK) && statusesKnown(results)
+//@ loop 1 invariant resultsOK(oks) && resultsOK(faileds) && op != nil
+//@ loop 2 at "range faileds" invariant fibOnlyAfterRib(results) && ribThenFib(results, fibACK) && statusesKnown(results)
+//@ loop 2 invariant resultsOK(faileds) && op != nil
+//@ assigns ribState
+//@ props C04 C06 C01 C12:safety
+
+//@ pred resultsOK(rs []*rib.OpResult) = forall i in 0..len(rs) :: rs[i] != nil
+
+// supportedSession: the session has negotiated the only mode this server implements.
+//@ pred supportedSession(c *clientState) = c != nil && c.params != nil && c.params.ExpectElecID && c.params.Persist
+
+//@ unit Server.doModify
+//@ requires csWF(s) && s.masterRIB != nil && holdersNonNil(s.masterRIB)
+//@ requires[wire-valid] forall i in 0..len(ops) :: ops[i] != nil
+//@ ensures[unknown-client] !(cid in dom(s.cs)) ==> len(sent(errCh)) == old(len(sent(errCh))) + 1 && len(sent(resCh)) == old(len(sent(resCh)))
+//@   && ribState == old(ribState)
+//@ ensures[unsupported-mode] cid in dom(s.cs) && !supportedSession(s.cs[cid]) ==> len(sent(errCh)) == old(len(sent(errCh))) + 1
+//@   && len(sent(resCh)) == old(len(sent(resCh))) && ribState == old(ribState)
+//@   && errCode(sent(errCh)[old(len(sent(errCh)))]) == codes.Unimplemented
+//@   && modifyReason(sent(errCh)[old(len(sent(errCh)))]) == spb.ModifyRPCErrorDetails_UNSUPPORTED_PARAMS
+//@ ensures[one-answer-per-op] cid in dom(s.cs) && supportedSession(s.cs[cid]) ==>
+//@   len(sent(resCh)) + len(sent(errCh)) == old(len(sent(resCh))) + old(len(sent(errCh))) + len(ops)
+//@ loop 1 at "range ops" invariant len(sent(resCh)) + len(sent(errCh)) == old(len(sent(resCh))) + old(len(sent(errCh))) + loopi
+//@ loop 1 invariant holdersNonNil(s.masterRIB) && s.masterRIB != nil && supportedSession(cs) && elec != nil
+//@ assigns sent(resCh), sent(errCh), ribState
+//@ props C06 C04 C09 C12:safety
